@@ -176,12 +176,6 @@ package vbft
 //@   assert[c41-commit-needs-quorum-of-signers] before "return c.BlockProposer, emptyCommit" : len(signCount[c.BlockProposer]) + 1 >= N - (N-1)/3
 //@   ensures[c41-no-quorum-no-proposer] len(commitMsgs) == 0 ==> r0 == 4294967295
 
-//@ func (*Server).isEndorser
-//@   property C41
-//@   mode abstract
-//@   requires self != nil
-//@   modifies nothing
-
 // commit quorum by endorsement signatures: every participant (endorser index) counts at most once for the empty
 // block and at most once for a proposer, so neither tally can exceed the number of participants visited; commit is
 // reported for a proposer only above N-1-C such signatures
@@ -194,13 +188,12 @@ package vbft
 //@   modifies nothing
 //@   ghost var gc uint32
 //@   set after "C = N - 1 - C" : gc := C
-//@   snapshot si before loop 3
+//@   snapshot si before loop 2
 //@   loop 1 invariant !isnil(endorseCnt) && candidate != nil && wfCand(candidate) && C == gc
 //@   loop 1 invariant[c41-one-empty-vote-per-participant] int(emptyCnt) <= it1
 //@   loop 1 invariant[c41-one-vote-per-participant-and-proposer] forall p uint32 :: int(endorseCnt[p]) <= it1
-//@   loop 2 invariant !isnil(endorseCnt) && candidate != nil && wfCand(candidate) && wfSigs(eSigs) && C == gc && int(emptyCnt) <= it1 && forall p uint32 :: int(endorseCnt[p]) <= it1
-//@   loop 3 invariant !isnil(endorseCnt) && candidate != nil && wfCand(candidate) && wfSigs(eSigs) && C == gc
-//@   loop 3 invariant int(emptyCnt) <= int(at(si, emptyCnt)) + 1 && (int(emptyCnt) == int(at(si, emptyCnt)) + 1 ==> exists j int :: 0 <= j && j < it3 && eSigs[j].ForEmpty) && int(at(si, emptyCnt)) <= it1
-//@   loop 3 invariant forall p uint32 :: int(endorseCnt[p]) <= int(at(si, endorseCnt[p])) + 1 && (int(endorseCnt[p]) == int(at(si, endorseCnt[p])) + 1 ==> exists j int :: 0 <= j && j < it3 && !eSigs[j].ForEmpty && eSigs[j].EndorsedProposer == p) && int(at(si, endorseCnt[p])) <= it1
+//@   loop 2 invariant !isnil(endorseCnt) && candidate != nil && wfCand(candidate) && wfSigs(eSigs) && C == gc
+//@   loop 2 invariant int(emptyCnt) <= int(at(si, emptyCnt)) + 1 && (int(emptyCnt) == int(at(si, emptyCnt)) + 1 ==> exists j int :: 0 <= j && j < it2 && eSigs[j].ForEmpty) && int(at(si, emptyCnt)) <= it1
+//@   loop 2 invariant forall p uint32 :: int(endorseCnt[p]) <= int(at(si, endorseCnt[p])) + 1 && (int(endorseCnt[p]) == int(at(si, endorseCnt[p])) + 1 ==> exists j int :: 0 <= j && j < it2 && !eSigs[j].ForEmpty && eSigs[j].EndorsedProposer == p) && int(at(si, endorseCnt[p])) <= it1
 //@   assert[c41-commit-needs-more-than-n-1-c] before "proposer = sig.EndorsedProposer" : endorseCnt[sig.EndorsedProposer] > gc
 //@   assert[c41-empty-commit-needs-more-than-n-1-c] after "forEmpty = emptyCnt > C" : forEmpty ==> emptyCnt > gc && int(emptyCnt) <= it1 + 1
